@@ -1371,6 +1371,15 @@ func (c *Ctx) keptLeaves(con *Contract) []keptLeaf {
 			continue
 		}
 		parts := strings.SplitN(it, ".", 2)
+		if len(parts) == 1 && rp != nil {
+			// a scalar package-level variable of the root package
+			if g, ok := rp.Members[it].(*ssa.Global); ok {
+				if ls := sortOf(g.Type().(*types.Pointer).Elem()); ls != "" {
+					out = append(out, keptLeaf{"G:" + rootPkg + "." + it, ls, nil})
+					continue
+				}
+			}
+		}
 		if len(parts) != 2 || rp == nil {
 			c.unsupported("keeps item %q", it)
 			continue
